@@ -254,18 +254,13 @@ impl<X: Booleable> Support<X> for Bernoulli {
 
 impl<X: Booleable> DiscreteDistr<X> for Bernoulli {
     fn pmf(&self, x: &X) -> f64 {
-        // values that are neither 0 nor 1 are outside the support
-        match x.try_into_bool() {
-            Some(val) => self.f(&val),
-            None => 0.0,
-        }
+        let val: bool = x.into_bool();
+        self.f(&val)
     }
 
     fn ln_pmf(&self, x: &X) -> f64 {
-        match x.try_into_bool() {
-            Some(val) => self.ln_f(&val),
-            None => f64::NEG_INFINITY,
-        }
+        let val: bool = x.into_bool();
+        self.ln_f(&val)
     }
 }
 
